@@ -342,7 +342,12 @@ def placement(ctx, facts, cfg):
                     pn = g.param_names()
                     usz = [x for i, x in enumerate(pn) if g.body.local_ty(i + 1) == 'usize']
                     ren = {usz[0]: 'O', usz[1]: 'R'} if len(usz) >= 2 else {}
-                    bases = (rn(core.strip_var_ids(g.body.canon_op(t['args'][4])), ren), rn(core.strip_var_ids(g.body.canon_op(t['args'][5])), ren))
+                    rp_ = getattr(RL, 'reset_param_roles', {}).get('dec') or {}
+                    inv_ = {r_: i_ for i_, r_ in rp_.items()}
+                    i4, i5 = inv_.get('original_base_pos', 4), inv_.get('recovery_base_pos', 5)
+                    if max(i4, i5) >= len(t['args']):
+                        i4, i5 = 4, 5
+                    bases = (rn(core.strip_var_ids(g.body.canon_op(t['args'][i4])), ren), rn(core.strip_var_ids(g.body.canon_op(t['args'][i5])), ren))
         if bases is None:
             ctx.violation(R, 'no-config:%s' % core.short(adt), 'cannot find where %s configures the base positions of its work object' % adt, fn=p, cfg=cfg)
             continue
